@@ -69,8 +69,9 @@ class _TermBool(ast.NodeTransformer):
 
 
 class Xform(ast.NodeTransformer):
-    def __init__(self, qual, clsname=None, selfname=None):
+    def __init__(self, qual, clsname=None, selfname=None, local_names=()):
         self.qual = qual
+        self.local_names = set(local_names)
         self.clsname, self.selfname = clsname, selfname
         self.counts = {}
         self.loops = []
@@ -162,6 +163,16 @@ class Xform(ast.NodeTransformer):
         return self._comp(n, 'dict', ast.Tuple([n.key, n.value], ast.Load()))
 
     # ---- 1. loops ----------------------------------------------------------------------------------
+    def _norm(self, node):
+        """loop shape: the iterable / condition text with every LOCAL variable replaced by `_` (renaming a local or a
+        parameter does not change the shape; attribute paths on self and called functions do)"""
+        import copy
+        n = copy.deepcopy(node)
+        for x in ast.walk(n):
+            if isinstance(x, ast.Name) and x.id in self.local_names:
+                x.id = '_'
+        return ast.unparse(n)
+
     def _lid(self, kind, text):
         fp = '%s %s' % (kind, text)
         k = self.counts.get(fp, 0)
@@ -255,7 +266,7 @@ class Xform(ast.NodeTransformer):
         return tuple(sorted(state & set(assigned)))
 
     def visit_For(self, node):
-        text = ast.unparse(node.iter)
+        text = self._norm(node.iter)
         lid = self._lid('for', text)
         carried = self._assigned(node.body, _target_names(node.target))
         state = self._state(node.body, carried, _target_names(node.target))
@@ -295,7 +306,7 @@ class Xform(ast.NodeTransformer):
         return new
 
     def visit_While(self, node):
-        text = ast.unparse(node.test)
+        text = self._norm(node.test)
         lid = self._lid('while', text)
         carried = self._assigned(node.body)
         state = self._state(node.body, carried)
@@ -403,10 +414,26 @@ def rewrite_source(src, qual, clsname=None):
     if not needs_rewrite(tree):
         return None
     selfname = fdef.args.args[0].arg if fdef.args.args else None
-    x = Xform(qual, clsname, selfname)
+    x = Xform(qual, clsname, selfname, local_names_of(fdef, selfname if clsname else None))
     tree = x.visit(tree)
     ast.fix_missing_locations(tree)
     return tree, ast.unparse(tree), x.loops
+
+
+def local_names_of(fdef, selfname=None):
+    """parameters (except self/cls) and every name assigned in the function"""
+    names = {a.arg for a in fdef.args.args + fdef.args.kwonlyargs + fdef.args.posonlyargs}
+    if fdef.args.vararg:
+        names.add(fdef.args.vararg.arg)
+    if fdef.args.kwarg:
+        names.add(fdef.args.kwarg.arg)
+    for x in ast.walk(fdef):
+        if isinstance(x, ast.Name) and isinstance(x.ctx, ast.Store):
+            names.add(x.id)
+        elif isinstance(x, ast.arg) and x is not fdef.args:
+            pass
+    names.discard(selfname)
+    return names
 
 
 def function_source(fn):
